@@ -256,7 +256,7 @@ func setup(x *sched.X) (*Gate, *rec, string) {
 func TestVerif(t *testing.T) {
 	vrt.Run(t, "C35", func(r *vrt.R) {
 		schedrun.Run(r, []schedrun.Scenario{
-			{Name: "two-appliers-one-reader", Quick: 2, Thorough: -1, Body: func(x *sched.X) {
+			{Name: "two-appliers-one-reader", Quick: 2, Thorough: 3, Body: func(x *sched.X) {
 				g, l, _ := setup(x)
 				if g == nil {
 					return
@@ -266,7 +266,7 @@ func TestVerif(t *testing.T) {
 				x.Go("rd", func() { l.snapshot(g, "rd"); l.snapshot(g, "rd") })
 				x.AtEnd(func() { l.finish(g, candidateContents(cR1, cR2)) })
 			}},
-			{Name: "two-cas-same-version-one-reader", Quick: 2, Thorough: -1, Body: func(x *sched.X) {
+			{Name: "two-cas-same-version-one-reader", Quick: 2, Thorough: 3, Body: func(x *sched.X) {
 				g, l, v0 := setup(x)
 				if g == nil {
 					return
